@@ -809,3 +809,10 @@ def x3(cx: Cx, ob: Ob) -> None:
     from ..rules import cached_derivations
 
     cached_derivations(cx, ob)
+
+
+@obligation("C14-X27", "the loaders that read the writers' output back (shared with C13-D4) take every entry and every key/value as written - unfiltered, in its role: a value the writer emits (an empty pattern, an empty prefix) and the reader drops or alters does not survive the round trip", floor=6)
+def x27(cx: Cx, ob: Ob) -> None:
+    from .c13 import d4 as loaders_d4
+
+    loaders_d4.fn(cx, ob) if hasattr(loaders_d4, "fn") else loaders_d4(cx, ob)
